@@ -313,6 +313,7 @@ def cred_tables():
 def select_shape():
     """shape check for coq/Agent/SelectModel.v: conn_check_update_selected_pair replaces the selected pair only by a strictly higher
     priority; nice_component_restart resets that priority to 0."""
+    cc = re.sub(r"\s+", " ", re.sub(r"/\*.*?\*/", " ", open(os.path.join(vlib.REPO, "agent/conncheck.c")).read(), flags=re.S))
     cp = re.sub(r"\s+", " ", re.sub(r"/\*.*?\*/", " ", open(os.path.join(vlib.REPO, "agent/component.c")).read(), flags=re.S))
     m = re.search(r"void conn_check_update_selected_pair \(NiceAgent \*agent, NiceComponent \*component, CandidateCheckPair \*pair\) \{(.*?)\} /\*|void conn_check_update_selected_pair \(NiceAgent \*agent, NiceComponent \*component, CandidateCheckPair \*pair\) \{(.*?)\n", cc)
     need_cc = ["g_assert (pair->nominated); if (pair->priority > component->selected_pair.priority) {", "cpair.priority = pair->priority;",
